@@ -300,7 +300,7 @@ def special_groups(tier, rng):
     fl = []
     for fs, kw in C02.special_pq_specs(rng):
         try:
-            fl.append(fs.use_bytes(rc.pq_bytes(fs, crc=True, rng=rng, **kw)))
+            fl.append(fs.use_bytes(rc.pq_bytes(fs, rng=rng, **dict(dict(crc=True), **kw))))
         except Exception as e:
             log(f"C03: pq.py cannot write {kw}: {e}")
     fl.append(C02.empty_rowgroup_file(rng))
